@@ -16,6 +16,7 @@ type Intrinsic func(vm *VM, fr *frame, args []Value) Value
 type Decision struct {
 	Taken  bool
 	Forced bool // only one side was feasible: no alternative queued, nothing asserted
+	Pin    *big.Int // not a branch: a factor of a symbolic product pinned to this witness value
 }
 
 type undoEntry struct {
@@ -1216,4 +1217,47 @@ func (vm *VM) nextOp(fr *frame, in *ssa.Next) Value {
 	}
 	vmErr("next on %T", it)
 	return nil
+}
+
+// pinTerm handles a product of two symbolic factors, which the linear integer
+// encoding cannot express: one factor is pinned to a witness value of the path
+// condition (preferring a non-degenerate one) and the path continues under that
+// extra equality. Everything found afterwards is a real behaviour (and is
+// replayed natively); what is lost is completeness on this path, which is
+// counted as pinned_products in the evidence (zero on the unchanged tree).
+func (vm *VM) pinTerm(t *smt.Term) *smt.Term {
+	if vm.pos < len(vm.prefix) {
+		d := vm.prefix[vm.pos]
+		vm.pos++
+		vm.trace = append(vm.trace, d)
+		if d.Pin == nil {
+			vmErr("internal: decision trace out of step at a pinned product")
+		}
+		vm.assume(smt.Eq(t, smt.Int(d.Pin)))
+		return smt.Int(d.Pin)
+	}
+	vm.pos++
+	var val *big.Int
+	for _, pref := range []*smt.Term{smt.Le(smt.Int(pow2(64)), t), smt.Le(smt.Int64(7), t), smt.True} {
+		vm.Solver.Push()
+		vm.Solver.Assert(pref)
+		if vm.Solver.Check() == smt.Sat {
+			if m, err := vm.Solver.Model(); err == nil {
+				if v, _ := t.Eval(m); v != nil {
+					val = v
+				}
+			}
+		}
+		vm.Solver.Pop()
+		if val != nil {
+			break
+		}
+	}
+	if val == nil {
+		return nil
+	}
+	vm.trace = append(vm.trace, Decision{Pin: val})
+	vm.assume(smt.Eq(t, smt.Int(val)))
+	vm.Extra["pinned_products"] = vm.intExtra("pinned_products") + 1
+	return smt.Int(val)
 }
